@@ -20,7 +20,7 @@ func c13Units(tier string) []gen.Unit {
 		return u
 	}
 	var us []gen.Unit
-	for _, u := range genUnits(tier) {
+	for _, u := range genUnits("thorough") { // cheap: both tiers use the full enumeration
 		n := u.Name
 		if strings.HasPrefix(n, "meta/") || n == "magic" || strings.HasPrefix(n, "tiny/") || strings.HasPrefix(n, "corpus/prefix/") ||
 			(strings.HasPrefix(n, "corpus/subst/testdata/") && strings.HasSuffix(n, "@0")) {
